@@ -1,7 +1,7 @@
 (* CostModel.v — executable model of how a path's cost is computed under the shipped objectives
    (PathGeometric::cost, OptimizationObjective::initialCost / terminalCost / combineCosts,
    PathLengthOptimizationObjective::motionCost, StateCostIntegralObjective::motionCost without motion-cost
-   interpolation and its trapezoid rule, MinimaxObjective::motionCost / combineCosts and
+   interpolation and its trapezoid rule, MechanicalWorkOptimizationObjective::motionCost, MinimaxObjective::motionCost / combineCosts and
    MaximizeMinClearanceObjective's order and identity).  Definitions only, generic in the arithmetic (SpacesModel.farith:
    binary64 for the correspondence, R for the theorems) and in the state space's distance.  A path is given with the
    state cost the objective's stateCost() reports for each state (user code, not modelled). *)
@@ -32,6 +32,11 @@ Section Cost.
   Definition trapezoid (c1 c2 d : F) : F := fhalf A *. d *. (c1 +. c2).
   Definition cost_integral (p : list pt) : F :=
     path_cost (f0 A) (fadd A) (fun a b => trapezoid (snd a) (snd b) (dist (fst a) (fst b))) p.
+
+  (* MechanicalWorkOptimizationObjective: motionCost = max(stateCost(s2) - stateCost(s1), 0) + pathLengthWeight * distance
+     (only positive changes of the state cost accrue: the motion cost depends on the direction), combine = + *)
+  Definition work_motion (w : F) (a b : pt) : F := fmax A (fsub A (snd b) (snd a)) (f0 A) +. w *. dist (fst a) (fst b).
+  Definition cost_work (w : F) (p : list pt) : F := path_cost (f0 A) (fadd A) (work_motion w) p.
 
   (* MinimaxObjective: a motion is given by the state costs evaluated along it, first state first; its cost is the
      worst of them; combineCosts keeps the worse of two; better = isCostBetterThan *)
